@@ -7,6 +7,7 @@ import (
 	"errors"
 	"fmt"
 	"io"
+	"math"
 	"net"
 	"runtime"
 	"sort"
@@ -893,7 +894,10 @@ func (multi *MultiEpoch) processSlotTransactions(
 		return nil
 	} else {
 
-		const batchSize = 100
+		// No cap on the number of transactions per account: the query is already bounded by the slot
+		// window [startSlot, endSlot], and a cap would silently drop the older matching transactions of
+		// the window (the path without an address index streams all of them).
+		const batchSize = math.MaxInt
 		buffer := newTxBuffer(uint64(startSlot), uint64(endSlot))
 		errChan := make(chan error, len(filter.AccountInclude))
 
